@@ -11,6 +11,7 @@ R-FLT   an integer result is not computed through floating point (f64 has 53 bit
 R-STAB  a function whose name promises stability does not call an unstable sort
 """
 import re
+import collections
 
 from .core import *
 from .report import Inst
@@ -376,6 +377,27 @@ def rule_OFFS(FA):
         if not ref:
             continue
         props = ['C09'] + props_of_module(base)
+        # the estimate accessors of the prefetch phases (rank up to a BLOCK start, sampled approximations) have no place in
+        # the exact walk: `rank_block_unchecked` for `rank_unchecked` counts to the start of the block only
+        def accessors(f, pat):
+            names = set()
+            for g in FA.with_closures(FA.inlined(f)):
+                for b in g['blocks']:
+                    t = b['t']
+                    if t['k'] == 'call' and 'fn' in t['f'] and re.search(pat, t['f']['fn']['name']):
+                        names.add(t['f']['fn']['name'])
+            return names
+        est = set()
+        for tw in twins:
+            est |= accessors(tw, r'^(rank_block|approx_rank)')
+        used = accessors(exact, r'^(rank_block|approx_rank)') & est
+        key = 'R-OFFS|%s|exact' % fn_key(exact)
+        if used:
+            out.append(Inst('R-OFFS', key, 'violation', exact['span'],
+                            'the exact `rank_unchecked` calls `%s`, the accessor the prefetch phases use for their ESTIMATES (a count up to the start of the block / a sampled approximation): the result is no longer the number of occurrences' % ', '.join(sorted(used)),
+                            props_of_module(base) + ['C04']))
+        elif est:
+            out.append(Inst('R-OFFS', key, 'ok', exact['span'], 'the exact walk uses none of the estimate accessors (%s)' % ', '.join(sorted(est)), props_of_module(base)))
         for tw in twins:
             got = counters(tw)
             key = 'R-OFFS|%s' % fn_key(tw)
@@ -396,6 +418,7 @@ def rule_CODE(FA):
     the bits of codes shorter than that length from the wrong place."""
     out = []
     code_adts = [p for p, a in FA.adts.items() if {x['name'] for x in a.get('fields', [])} == {'content', 'len'}]
+    by_base = {}
     if not code_adts:
         return [Inst('R-CODE', 'R-CODE|none', 'note', '', 'no {content, len} code record in the crate', ['C02'], nontrivial=False)]
     for f in FA.lib_fns():
@@ -407,6 +430,7 @@ def rule_CODE(FA):
             F.dom()
             n_ok = 0
             bad = None
+            offsets = []
             for bi, b in enumerate(F.blocks):
                 if bi not in F.reach:
                     continue
@@ -434,20 +458,50 @@ def rule_CODE(FA):
                     subs = list(outside_loops(amt))
                     if any(st == ('field', X, 'len') for st in subs):
                         n_ok += 1
+                        if any(isinstance(st, tuple) and st[:1] == ('call',) and st[1].split('::')[-1] in ('next', 'next_back') for st in subterms(amt)):
+                            offsets.append((_const_part(amt), s_.get('line', '')))    # `len - <loop variable> + c`
                         continue
                     others = [st for st in subs if isinstance(st, tuple) and st[:1] == ('field',) and st[1] == SELF]
                     if others and bad is None:
                         bad = (s_.get('line', ''), show(amt)[:60], show(others[0]))
             key = 'R-CODE|%s%s' % (fn_key(pf), spec_key(spec))
             props = props_of_module(fn_key(pf))
+            for off in (offsets if pf['name'] != 'new' else []):    # the readers; the builder counts its shift differently
+                by_base.setdefault(pf.get('_base'), []).append((off, fn_key(pf), spec_key(spec)))
             if bad:
                 out.append(Inst('R-CODE', key, 'violation', bad[0],
                                 'the content of a code is shifted by `%s`, computed from `%s` and not from the length of that code: codes shorter than that are read at the wrong bit' % (bad[1], bad[2]), props))
             elif n_ok:
                 out.append(Inst('R-CODE', key, 'ok', pf['span'], '%d fragment extraction(s) relative to the code\'s own length' % n_ok, props))
+    # the same fragment is addressed the same way wherever a loop walks the levels of a code: `len - level - 1` in one loop
+    # and `len - level` in another read neighbouring bits
+    for base, lst in sorted(by_base.items(), key=lambda kv: str(kv[0])):
+        cs = collections.Counter(o[0][0] for o in lst)
+        if len(cs) > 1 and len(lst) >= 3:
+            ref, n = cs.most_common(1)[0]
+            if n >= len(lst) - 1:
+                (c, line), fk, sk = next(o for o in lst if o[0][0] != ref)
+                out.append(Inst('R-CODE', 'R-CODE|%s%s|offset' % (fk, sk), 'violation', line,
+                                'this loop takes the fragment of level `l` at shift `len - l %+d`, the other %d loops over the levels of %s at `len - l %+d`: it reads the neighbouring bit' % (c, n, str(base).split('::')[-1], ref),
+                                props_of_module(fk)))
+        elif len(lst) >= 2:
+            out.append(Inst('R-CODE', 'R-CODE|%s|offset' % base, 'ok', '', 'all %d level loops address the fragment at `len - l %+d`' % (len(lst), lst[0][0][0]), props_of_module(str(base))))
     if not out:
         out.append(Inst('R-CODE', 'R-CODE|none', 'note', '', 'no fragment extraction from a code record recognised', ['C02'], nontrivial=False))
     return out
+
+
+def _const_part(t, sign=1):
+    t = strip_casts(t)
+    if not isinstance(t, tuple) or not t:
+        return 0
+    if t[0] == 'const':
+        return sign * t[1] if isinstance(t[1], int) else 0
+    if t[0] == 'bin' and t[1] == 'Add':
+        return _const_part(t[2], sign) + _const_part(t[3], sign)
+    if t[0] == 'bin' and t[1] == 'Sub':
+        return _const_part(t[2], sign) + _const_part(t[3], -sign)
+    return 0
 
 
 def rule_HORD(FA):
@@ -481,3 +535,164 @@ def rule_HORD(FA):
     if not out:
         out.append(Inst('R-HORD', 'R-HORD|none', 'note', '', 'no sequence is built from a hash-container iteration', ['C17'], nontrivial=False))
     return out
+
+
+def rule_NCNT(FA):
+    """A constructor that records a count `n` in a field and fills its vectors in a loop over `0..=n` runs that loop n + 1
+    times: one more element than recorded is built and retained (the readers, which go by the recorded count, never see it)."""
+    out = []
+    for f in FA.lib_fns(include_closures=False):
+        base = f.get('_base')
+        if f['name'] != 'new' or base not in FA.adts or f['derived']:
+            continue
+        adt = FA.adts[base]
+        names = [x['name'] for x in adt['fields']]
+        cnt_fields = [n for n in names if n.startswith('n_') and n not in ('n_bits', 'n_ones', 'n_zeros')]
+        if not cnt_fields:
+            continue
+        owner = FA.canon_type(base) or base
+        G = FA.inlined(f)
+        for spec in FA.specs(f):
+            F = FA.fn(G, spec)
+            F.dom()
+            stored = {}
+            for bi, b in enumerate(F.blocks):
+                if bi not in F.reach:
+                    continue
+                for s_ in b['s']:
+                    rv = s_['rv']
+                    if rv['k'] == 'agg' and rv['kind'].get('adt') == owner:
+                        for n in cnt_fields:
+                            k = names.index(n)
+                            if k < len(rv['ops']):
+                                tm = norm(F.operand_term(rv['ops'][k]))
+                                if tm[:1] != ('const',):
+                                    stored[n] = tm
+            if not stored:
+                continue
+            key = 'R-NCNT|%s%s' % (fn_key(f), spec_key(spec))
+            props = sorted(set(props_of_module(fn_key(f))) | {'C14'})
+            bad = None
+            n_rng = 0
+            for bi, t in F.calls():
+                fn = t['f']['fn']
+                if fn['name'] == 'new' and 'RangeInclusive' in fn.get('path', '') and len(t['args']) == 2:
+                    end = norm(F.operand_term(t['args'][1]))
+                    start = norm(F.operand_term(t['args'][0]))
+                    for n, tm in stored.items():
+                        if end == tm and start == ('const', 0):     # `1..=n` runs n times
+                            bad = (t.get('line', ''), n)
+            for bi, b in enumerate(F.blocks):
+                for s_ in b['s']:
+                    rv = s_['rv']
+                    if rv['k'] == 'agg' and rv['kind'].get('adt') == 'std::ops::Range' and len(rv['ops']) == 2:
+                        end = norm(F.operand_term(rv['ops'][1]))
+                        if any(end == tm for tm in stored.values()):
+                            n_rng += 1
+            if bad:
+                out.append(Inst('R-NCNT', key, 'violation', bad[0],
+                                'the constructor stores `%s` and fills its vectors in a loop over `0..=%s`: the loop runs one more time than the recorded count, an extra element is built and retained' % (bad[1], bad[1]), props))
+            elif n_rng:
+                out.append(Inst('R-NCNT', key, 'ok', f['span'], 'the loop over the recorded count is half-open (`0..%s`)' % list(stored)[0], props))
+    if not out:
+        out.append(Inst('R-NCNT', 'R-NCNT|none', 'note', '', 'no constructor loops over a count it records', ['C14'], nontrivial=False))
+    return out
+
+
+def rule_CGEN(FA):
+    """A const generic parameter that selects the behaviour of a type (block size) or of a function (number of words) is
+    USED by the code: (a) a function never leaves its own const parameter unused; (b) an impl that is generic in a const
+    parameter does not hard-wire one instantiation of its own type (`RSSupportPlain::<256>::f` called from code generic
+    in B_SIZE); (c) a type's const parameter reaches at least one function body or associated constant."""
+    out = []
+    # (a) free functions (their generics are their own)
+    for f in FA.lib_fns(include_closures=False):
+        if f.get('_base') or f.get('impl_self'):
+            continue
+        own = [g['name'] for g in f.get('generics', []) if g['kind'] == 'const']
+        for c in own:
+            used = any(c in _mentions_const(g, c) for g in FA.with_closures(f))
+            key = 'R-CGEN|%s|%s' % (fn_key(f), c)
+            props = props_of_module(fn_key(f))
+            if used:
+                out.append(Inst('R-CGEN', key, 'ok', f['span'], 'const parameter `%s` is used' % c, props, nontrivial=False))
+            else:
+                out.append(Inst('R-CGEN', key, 'violation', f['span'], 'the const parameter `%s` of `%s` is not used by its body: every instantiation computes the same thing' % (c, f['name']), props))
+    # (b) a fixed instantiation of a const-generic type used by the code of that type: a method (or a helper it calls) that
+    #     is generic in the parameter calls a method of the type with a LITERAL in its place (`<RSSupportPlain>::f()` outside
+    #     the impl block silently means the default, RSSupportPlain<256>)
+    for base, adt in sorted(FA.adts.items()):
+        adt_cps = [g['name'] for g in adt.get('generics', []) if g.get('kind') == 'const']
+        if not adt_cps or '::_::' in base:
+            continue
+        short = base.split('::')[-1]
+        n_gen = len(adt.get('generics', []))
+        methods = [f for f in FA.lib_fns(include_closures=False) if f.get('_base') == base]
+        reach = set()
+        for m_ in methods:
+            st = [m_['path']]
+            for _ in range(3):
+                st = [c for p_ in st for c in FA.callees_of(FA.fns[p_]) if c in FA.fns]
+                reach.update(st)
+            reach.add(m_['path'])
+        for h in FA.lib_fns():
+            if h['path'] not in reach and FA.closure_parent(h)['path'] not in reach:
+                continue
+            for b in h['blocks']:
+                t = b['t']
+                if t['k'] != 'call' or 'fn' not in t['f']:
+                    continue
+                fn = t['f']['fn']
+                if not re.search(r'\b%s::<' % re.escape(short), fn.get('path', '')):
+                    continue
+                ga = [str(g) for g in fn.get('gargs', []) if not str(g).startswith("'")]
+                lits = [g for g in ga[:n_gen] if re.fullmatch(r'\d+|true|false', g)]
+                if lits:
+                    ph = FA.closure_parent(h)
+                    out.append(Inst('R-CGEN', 'R-CGEN|%s|fixed %s' % (fn_key(ph), lits[0]), 'violation', t.get('line', ''),
+                                    '`%s`, which serves every instantiation of %s, calls `%s` on the fixed instantiation %s<%s>: for the other instantiations it computes with the wrong parameter' % (
+                                        ph['name'], short, fn['name'], short, lits[0]), sorted(set(props_of_module(base)) | {'C14'})))
+    # (c) const parameters of types: some associated constant depends on the parameter, or some body reads it
+    for base, adt in sorted(FA.adts.items()):
+        cps = [g['name'] for g in adt.get('generics', []) if g.get('kind') == 'const' and g.get('ty', 'usize') != 'bool']
+        if not cps or '::_::' in base or not adt.get('exported'):
+            continue
+        short = base.split('::')[-1]
+        for c in cps:
+            assoc = [(k, v) for k, v in FA.consts.items() if v.get('assoc') and re.search(r'\b%s\s*(?:::)?<[^>]*\b%s\b' % (re.escape(short), re.escape(c)), k)]
+            dependent = [k for k, v in assoc if v.get('val') is None]
+            direct = any(c in _mentions_const(g, c) for f in FA.lib_fns(include_closures=False) if f.get('_base') == base for g in FA.with_closures(f))
+            key = 'R-CGEN|%s|%s' % (base, c)
+            props = sorted(set(props_of_module(base)) | {'C14'})
+            if dependent or direct:
+                out.append(Inst('R-CGEN', key, 'ok', adt['span'], 'const parameter `%s` reaches %s' % (c, ('`%s`' % dependent[0].split('::')[-1]) if dependent else 'a function body'), props))
+            elif assoc:
+                out.append(Inst('R-CGEN', key, 'violation', adt['span'],
+                                'no associated constant and no function of %s depends on its const parameter `%s` (e.g. `%s` = %s for every instantiation): the instantiations the aliases name (256 / 512) are the same structure' % (
+                                    short, c, assoc[0][0].split('::')[-1], assoc[0][1].get('val')), props))
+    if not out:
+        out.append(Inst('R-CGEN', 'R-CGEN|none', 'note', '', 'no const-generic item', ['C14'], nontrivial=False))
+    return out
+
+
+def _mentions_const(f, c):
+    """does the MIR of f read the const parameter c as a VALUE (a constant operand `c`, or an unevaluated constant
+    expression over it)?  Generic arguments handed on to callees and type names are not uses of the value."""
+    found = []
+
+    def walk(x):
+        if isinstance(x, dict):
+            if 'c' in x and isinstance(x['c'], str):
+                txt = re.sub(r'<[^<>]*>', '<>', x['c'])     # drop generic argument lists
+                txt = re.sub(r'<[^<>]*>', '<>', txt)
+                if re.search(r'\b%s\b' % re.escape(c), txt):
+                    found.append(x['c'])
+            for k, v in x.items():
+                if k in ('gargs', 'self_ty', 'path', 'full', 'ty'):
+                    continue
+                walk(v)
+        elif isinstance(x, list):
+            for v in x:
+                walk(v)
+    walk(f['blocks'])
+    return {c} if found else set()
